@@ -128,6 +128,18 @@ CHECKS.update({
         ref="DESIGN.md section 2 C10"),
 })
 
+CHECKS.update({
+    "C14": dict(
+        category="fault_enumeration",
+        technique="runtime monitoring: byte-exact snapshot monitor on 35 public probe points (entry/exit, normal and exceptional), history "
+                  "check on shared root signals, and sys.monitoring failpoints enumerating every statement boundary inside each operation",
+        text="Exploration of call histories plus exhaustive crash-point enumeration of the executions driven (every statement boundary "
+             "of pulsarbat code inside the selected calls, capped at 400 per call): every argument (signal buffer through its strides, "
+             "all metadata, arrays, Quantities, Times, lists) is compared bit for bit with a snapshot taken at entry, whether the "
+             "call returns, raises by itself or is crashed by an injected fault.",
+        ref="DESIGN.md section 2 C14"),
+})
+
 NOT_YET = {}
 
 
